@@ -35,7 +35,7 @@ def make_data(F, rng, ctx, path, nmax, big=False):
     N = int(rng.choice([0, 1, 2, 3, 5])) if rng.random() < 0.25 else int(rng.integers(0, nmax + 1))
     if big:
         # tens of thousands of events (fast paths, pre-filters and chunking engage only here)
-        kind, N = int(rng.choice([0, 1, 3, 3])), int(rng.choice([60001, 100000, 150000]))
+        kind, N = int(rng.choice([0, 1, 3, 3])), int(rng.choice([60001, 150000, 300000]))
     D = int(rng.integers(2, 6))
     if kind == 4:
         # 8-bit sample (uint8 container)
